@@ -181,6 +181,7 @@ def model_driver(pid):
     exe = os.path.join(d, "modelrun")
     with Lock("coq"):
         os.makedirs(d, exist_ok=True)
+        c2v()        # the generated constants must be those of the tree as it is now (a replay does not go through coq_prove)
         ext_v = os.path.join(COQ, "Extract_%s.v" % pid)
         drv = os.path.join(VERIF, "ocaml", "driver_%s.ml" % pid)
         # dependencies: every .vo under coq (cheap stat)
